@@ -133,7 +133,7 @@ Proof. exact sim_example. Qed.
    each theorem says that the model's definition IS that expression, for all arguments.  A change of the expression in the code
    breaks the obligation even when no sampled input distinguishes old and new behaviour. *)
 Theorem C01_tie_single_copy : forall (A : Type) (r : @Pipeline.row A), r_cn r <> 0%Z ->
-  Pipeline.single_copy r = single_copy_val (r_total r) (inZ (r_cn r)).
+  (Pipeline.single_copy r == single_copy_val (r_total r) (inZ (r_cn r)))%Q.
 Proof. exact single_copy_pipeline_tied. Qed.
 Goal True. idtac "ASSUME C01_tie_single_copy". Abort.
 Print Assumptions C01_tie_single_copy.
